@@ -443,6 +443,11 @@ def sat_literals(path, extra_items=None):
                 other.append((key, val))
                 continue
             lits.append(("sat", f) if val else ("not", ("sat", f)))
+        elif key[0] in ("simplifies-false", "simplifies-true") and isinstance(key[1], tuple) and key[1][:1] == ("f",):
+            # a syntactic simplification: the constant false (true) proves unsatisfiability (validity); anything else
+            # proves nothing
+            if val:
+                lits.append(("not", ("sat", key[1][1] if key[0] == "simplifies-false" else F.mk_not(key[1][1]))))
         else:
             other.append((key, val))
     return lits, other
@@ -707,8 +712,25 @@ def hook_mcs(I, v, args, kwargs, node):
     snap = I.snapshot(w)
     ign = bound.get("ignore")
     ignv = view(I.state, ign) if ign is not None else None
+    ign_default = None
+    if ign is None:
+        # not passed: the parameter's default is what the enumeration ignores (read from the signature)
+        import ast as _ast
+        fi_ = I.prog.lookup_method("inference.optimizer.OptimizerRC2", "minimal_correction_subsets")
+        if fi_ is not None:
+            a_ = fi_.node.args
+            params_ = a_.posonlyargs + a_.args
+            for i_, p_ in enumerate(params_):
+                if p_.arg == "ignore":
+                    di_ = i_ - (len(params_) - len(a_.defaults))
+                    if di_ >= 0:
+                        dn_ = a_.defaults[di_]
+                        if isinstance(dn_, (_ast.List, _ast.Tuple, _ast.Constant)):
+                            ign_default = view(I.state, I.eval(dn_))
+                        else:
+                            ign_default = ("unread", _ast.unparse(dn_))
     dl = bound.get("deadline", Const(None))
-    I.log("mcs", node, cid=cid, wcnf=w, snap=snap, ignore=ign, ignore_view=ignv, deadline=dl)
+    I.log("mcs", node, cid=cid, wcnf=w, snap=snap, ignore=ign, ignore_view=ignv, deadline=dl, ignore_default=ign_default)
     if not (isinstance(dl, Const) and dl.value is None):
         if I.ctx.decide(("mcs-timeout", cid)):
             from .absint import RaiseSig
